@@ -87,7 +87,7 @@ fn exercise(style: ProgressStyle, nticks: u64, hist: &[String], stats: &mut Stat
     crate::clock::reset();
     for w in [0u16, 1, 5, 80] {
         let catcher = LineCatcher::new(w);
-        for (pos, len) in [(0u64, Some(0u64)), (0, Some(5)), (3, Some(5)), (5, Some(5)), (9, Some(5)), (u64::MAX, Some(u64::MAX)), (0, Some(u64::MAX)), (7, None)] {
+        for (pos, len) in [(0u64, Some(0u64)), (3, Some(0)), (0, Some(5)), (3, Some(5)), (5, Some(5)), (9, Some(5)), (u64::MAX, Some(u64::MAX)), (0, Some(u64::MAX)), (7, None)] {
             for status in 0..5 {
                 let msg = match status {
                     3 => "",
@@ -122,6 +122,28 @@ fn exercise(style: ProgressStyle, nticks: u64, hist: &[String], stats: &mut Stat
                 }
                 stats.bump("draws", 1);
             }
+        }
+    }
+    // the terminal changes its mind about its width in the middle of a draw: the k-th width query and
+    // all later ones get another answer
+    for (w1, w2) in [(80u16, 10u16), (10, 80), (40, 0), (3, 1)] {
+        for k in 0..6usize {
+            let catcher = LineCatcher::new(w2);
+            let step = format!("draw while the terminal answers {w1} columns to the first {k} width queries and {w2} afterwards");
+            let st = style.clone();
+            let r = catch(|| {
+                let pb = bar_on(&catcher, Some(5), st).with_position(3).with_message("a message of some length").with_prefix("p");
+                pb.tick();
+                *catcher.width_script.lock().unwrap() = std::iter::repeat(w1).take(k).collect();
+                pb.force_draw();
+                pb.set_message("other");
+                catcher.width_script.lock().unwrap().clear();
+                pb.abandon();
+            });
+            if let Err(p) = r {
+                return Err(mk(format!("accepted style panics in draw: {}", panic_class(&p)), step, p));
+            }
+            stats.bump("draws", 3);
         }
     }
     // the style is installed on a live bar whose tick count was accumulated under another spinner
